@@ -16,7 +16,47 @@
 #include <sstream>
 #include <unordered_set>
 
+#ifdef OPENSMT_VERIF
+#include <common/VerifTrace.h>
+#include <unordered_map>
+#endif
+
 namespace opensmt {
+
+#ifdef OPENSMT_VERIF
+namespace {
+// "(t <handler> <kind> (<lits>) (<literal terms>) ((<var> <sort>) ...))": a theory clause both as
+// SAT literals and as SMT-LIB terms, with the sorts of the variables occurring in it
+void verifTraceTheoryClause(THandler & th, char const * kind, vec<Lit> const & lits) {
+    if (not veriftrace::on()) { return; }
+    Logic & logic = th.getLogic();
+    std::string litsStr, termsStr, varsStr;
+    std::unordered_set<PTRef, PTRefHash> seen;
+    std::vector<PTRef> todo;
+    for (Lit l : lits) {
+        if (l == lit_Undef) { continue; }
+        litsStr += (litsStr.empty() ? "" : " ") + std::to_string(sign(l) ? -(var(l) + 1) : (var(l) + 1));
+        PTRef atom = th.varToTerm(var(l));
+        std::string a = logic.termToSMT2String(atom);
+        termsStr += (termsStr.empty() ? "" : " ") + (sign(l) ? "(not " + a + ")" : a);
+        todo.push_back(atom);
+    }
+    while (not todo.empty()) {
+        PTRef tr = todo.back();
+        todo.pop_back();
+        if (not seen.insert(tr).second) { continue; }
+        if (logic.isVar(tr)) {
+            varsStr += "(" + logic.termToSMT2String(tr) + " " + logic.sortToString(logic.getSortRef(tr)) + ")";
+        }
+        Pterm const & t = logic.getPterm(tr);
+        for (int i = 0; i < t.size(); ++i) { todo.push_back(t[i]); }
+    }
+    char buf[32];
+    std::snprintf(buf, sizeof buf, "%p", static_cast<void const *>(&th));
+    veriftrace::line(std::string("(t ") + buf + " " + kind + " (" + litsStr + ") (" + termsStr + ") (" + varsStr + "))");
+}
+}
+#endif
 
 void THandler::backtrack(int lev)
 {
@@ -112,6 +152,9 @@ std::vector<vec<Lit>> THandler::getNewSplits() {
             assert(false);
         }
     }
+#ifdef OPENSMT_VERIF
+    for (auto const & splitClause : splitClauses) { verifTraceTheoryClause(*this, "split", splitClause); }
+#endif
     return splitClauses;
 }
 
@@ -162,6 +205,9 @@ void THandler::getConflict (
             max_decision_level = vardata[v].level;
         }
     }
+#ifdef OPENSMT_VERIF
+    verifTraceTheoryClause(*this, "conflict", conflict);
+#endif
 }
 
 
@@ -247,6 +293,9 @@ void THandler::getReason( Lit l, vec< Lit > & reason)
             reason.push(pa.sgn == l_True ? ~tmap.getLit(ei) : tmap.getLit(ei)); // Swap the sign for others
         }
     }
+#ifdef OPENSMT_VERIF
+    verifTraceTheoryClause(*this, "reason", reason);
+#endif
 
 }
 
